@@ -101,11 +101,13 @@ func mutexField(v ssa.Value) string {
 }
 
 type LockAnalysis struct {
-	c        *Ctx
-	wrappers map[*ssa.Function]lockOp
-	entry    map[*ssa.Function]lockState
-	in       map[*ssa.BasicBlock]lockState
-	fns      []*ssa.Function
+	c         *Ctx
+	wrappers  map[*ssa.Function]lockOp
+	entry     map[*ssa.Function]lockState
+	in        map[*ssa.BasicBlock]lockState
+	fns       []*ssa.Function
+	callIndex map[*ssa.Function][]*ssa.Function
+	invoked   map[string]bool
 }
 
 func syncOp(fn *ssa.Function) byte {
@@ -258,15 +260,11 @@ func (la *LockAnalysis) isLocal(fn *ssa.Function) bool {
 // escapes: exported, or used as a value (method value, stored, passed), or a
 // closure that is not only called directly: callers unknown -> empty entry set.
 func (la *LockAnalysis) escapes(fn *ssa.Function) bool {
-	if fn.Parent() == nil {
-		if fn.Object() != nil && fn.Object().Exported() {
+	if fn.Parent() == nil && fn.Object() != nil && fn.Object().Exported() {
+		// whole-program view: an exported function whose every call site is a
+		// static call inside the analysed packages has known callers.
+		if !la.onlyLocalStaticCallers(fn) {
 			return true
-		}
-		if fn.Signature.Recv() != nil {
-			// may be called through an interface
-			if n, ok := derefNamed(fn.Signature.Recv().Type()); ok && n.Obj().Exported() && fn.Object() != nil && fn.Object().Exported() {
-				return true
-			}
 		}
 	}
 	if refs := fn.Referrers(); refs != nil {
@@ -300,6 +298,41 @@ func (la *LockAnalysis) escapes(fn *ssa.Function) bool {
 		}
 	}
 	return false
+}
+
+func (la *LockAnalysis) onlyLocalStaticCallers(fn *ssa.Function) bool {
+	if la.callIndex == nil {
+		la.callIndex = map[*ssa.Function][]*ssa.Function{}
+		la.invoked = map[string]bool{}
+		for _, f := range la.c.P.AllFns {
+			for _, b := range f.Blocks {
+				for _, ins := range b.Instrs {
+					ci, ok := ins.(ssa.CallInstruction)
+					if !ok {
+						continue
+					}
+					if ci.Common().IsInvoke() {
+						la.invoked[ci.Common().Method.Name()] = true
+					} else if callee := ci.Common().StaticCallee(); callee != nil {
+						la.callIndex[callee] = append(la.callIndex[callee], f)
+					}
+				}
+			}
+		}
+	}
+	if fn.Signature.Recv() != nil && la.invoked[fn.Name()] {
+		return false // may be reached through an interface
+	}
+	callers := la.callIndex[fn]
+	if len(callers) == 0 {
+		return false
+	}
+	for _, f := range callers {
+		if !la.isLocal(Top(f)) && !la.isLocal(f) {
+			return false
+		}
+	}
+	return true
 }
 
 func derefNamed(t types.Type) (*types.Named, bool) {
